@@ -196,7 +196,7 @@ func runC13(e *sim.Env) {
 		if nApply > 0 && e.Chance(1, 2) {
 			for _, n := range to.PathFromGenesis()[fork.Height+1:] {
 				for _, txn := range n.Block.V2Transactions() {
-					if e.Chance(1, 3) && len(txn.SiacoinInputs) > 0 {
+					if len(txn.SiacoinInputs) > 0 && e.Chance(1, 3) || len(txn.SiacoinInputs) == 0 && len(txn.SiafundInputs) > 0 && e.Chance(1, 2) {
 						// re-proof it for `from` when its inputs exist there
 						tb.Strict = false // may legitimately conflict with the set so far
 						if fresh, ok := refreshV2(txn, from.L, nil); ok && tb.CommitV2("confirmed-later", fresh) {
@@ -213,6 +213,10 @@ func runC13(e *sim.Env) {
 			// children of transactions that will be confirmed on the way
 			for k, n := 0, e.Range(0, 2); k < n; k++ {
 				tb.V2Pay(true)
+			}
+			// ... and a child of a siafund output one of them creates
+			if tb.V2SFEph() {
+				e.Probe("set_has_ephemeral_siafund_child")
 			}
 		}
 		set := tb.V2Txns
@@ -307,6 +311,9 @@ func runC13(e *sim.Env) {
 				}
 			}
 			for _, in := range set[i].SiafundInputs {
+				if in.Parent.StateElement.LeafIndex == types.UnassignedLeafIndex {
+					continue
+				}
 				if _, ok := fork.L.SF[in.Parent.ID]; !ok {
 					mustErr = "an input was created in a reverted block"
 				}
@@ -385,8 +392,22 @@ func runC13(e *sim.Env) {
 				}
 			}
 			for j, in := range out[i].SiafundInputs {
-				if el, ok := to.L.SF[in.Parent.ID]; ok && !bytes.Equal(gen.Enc(in.Parent), gen.Enc(el)) {
-					e.Violationf("C13.proofs-at-target", "siafund", "rebased transaction %d siafund input %d differs from the ledger at %s", i, j, to.Describe())
+				el, ok := to.L.SF[in.Parent.ID]
+				// the property speaks of leaf index and Merkle proof: an ephemeral
+				// siafund input that became confirmed keeps ClaimStart 0 (only its
+				// StateElement is filled in), which is counted, not judged (12.7)
+				if ok && bytes.Equal(gen.Enc(in.Parent.StateElement), gen.Enc(el.StateElement)) && !bytes.Equal(gen.Enc(in.Parent), gen.Enc(el)) {
+					e.Probe("rebase_siafund_claimstart_not_filled")
+				}
+				if ok && !bytes.Equal(gen.Enc(in.Parent.StateElement), gen.Enc(el.StateElement)) {
+					e.Violationf("C13.proofs-at-target", "siafund", "rebased transaction %d siafund input %d (%v): leaf %d, %d proof hashes; the ledger at %s has leaf %d, %d hashes", i, j, in.Parent.ID, in.Parent.StateElement.LeafIndex, len(in.Parent.StateElement.MerkleProof), to.Describe(), el.StateElement.LeafIndex, len(el.StateElement.MerkleProof))
+				}
+				if ok {
+					for _, orig := range set {
+						if orig.ID() == out[i].ID() && orig.SiafundInputs[j].Parent.StateElement.LeafIndex == types.UnassignedLeafIndex {
+							e.Probe("rebase_ephemeral_siafund_became_confirmed")
+						}
+					}
 				}
 			}
 			for j, r := range out[i].FileContractRevisions {
@@ -564,7 +585,7 @@ func hasEphemeral(t types.V2Transaction) bool {
 func init() {
 	register(&Prop{
 		ID: "C13", Run: runC13, Quick: 700, Thorough: 20000, Level: "exploration",
-		Rule:        "one run = fork tree handed to the node (1 run in 10 with a 150-230 block stretch, half of those with a second stretch of 100-140 blocks from the same block that has been the best chain first, and rebases from deep in it to 60-144 blocks up the other one: two moderate legs, together beyond the limit), then 4-14 rebases of a v2 transaction set valid at a drawn applied index `from` (confirmed/ephemeral/mixed parents, contract revisions, renewals, storage proofs, expirations, transactions that get confirmed on the way) to a drawn index `to` on the same or another branch, or with a corrupted basis / proof bit / leaf index; then two rounds of a drawn dependency DAG pooled on the node and V2TransactionSet asked for its last transaction (tip basis, stale basis, or right after a block confirmed some of its parents and before any other pool query); oracles: error iff required, same transactions minus confirmed ones in order, every element == reference ledger at `to`, ephemeral->confirmed replacement, returned sets in dependency order with basis == tip and accepted by a fresh pool; distinct = abstract trace (revert/apply length buckets, corruption, error); non-trivial = a rebase across a fork or a DAG query",
+		Rule:        "one run = fork tree handed to the node (1 run in 10 with a 150-230 block stretch, half of those with a second stretch of 100-140 blocks from the same block that has been the best chain first, and rebases from deep in it to 60-144 blocks up the other one: two moderate legs, together beyond the limit), then 4-14 rebases of a v2 transaction set valid at a drawn applied index `from` (confirmed/ephemeral/mixed parents, contract revisions, renewals, storage proofs, expirations, transactions that get confirmed on the way, children spending an ephemeral siacoin or siafund output of those) to a drawn index `to` on the same or another branch, or with a corrupted basis / proof bit / leaf index; then two rounds of a drawn dependency DAG pooled on the node and V2TransactionSet asked for its last transaction (tip basis, stale basis, or right after a block confirmed some of its parents and before any other pool query); oracles: error iff required, same transactions minus confirmed ones in order, every element == reference ledger at `to`, ephemeral->confirmed replacement, returned sets in dependency order with basis == tip and accepted by a fresh pool; distinct = abstract trace (revert/apply length buckets, corruption, error); non-trivial = a rebase across a fork or a DAG query",
 		Real:        []string{"chain.Manager (UpdateV2TransactionSet, V2TransactionSet, AddV2PoolTransactions)", "chain.DBStore"},
 		Stub:        []string{"disk: simdisk.DB"},
 		Assumptions: []string{"distances up to 100 must be supported and distances from 200 must be rejected; in between only absence of panics and correctness on success are demanded"},
